@@ -56,6 +56,11 @@ impl<L: Language> Expansion<L> {
     let matches = env.deserialize_rule(inner.rule)?;
     Ok(Some(Self { matches, stop_by }))
   }
+
+  fn verify_util(&self) -> Result<(), RuleSerializeError> {
+    self.matches.verify_util()?;
+    self.stop_by.verify_util()
+  }
 }
 
 pub struct Fixer<L: Language> {
@@ -126,6 +131,14 @@ impl<L: Language> Fixer<L> {
 
   pub(crate) fn used_vars(&self) -> HashSet<&str> {
     self.template.used_vars()
+  }
+
+  /// check if util rules used in expandStart/expandEnd are defined
+  pub(crate) fn verify_util(&self) -> Result<(), FixerError> {
+    for expansion in [&self.expand_start, &self.expand_end].into_iter().flatten() {
+      expansion.verify_util()?;
+    }
+    Ok(())
   }
 }
 
